@@ -102,6 +102,19 @@ type fnSpec struct {
 	oracles map[string]string
 	// storage: for an abstract parameter the field paths that hold buffers (iter.go)
 	storage map[string]string
+	// seventh round (zw.go): executed-only translation in `do` notation
+	round7 bool
+	// funcFields: function-typed fields of the receiver that may be called (`ai.evaluate`)
+	funcFields map[string]string
+	// methodDeps: `<struct local>.<statement oracle of a callee>` -> the views of the receiver the method reads
+	methodDeps map[string]string
+	// assumeFalse: `if <this condition> {..}` is skipped (declared assumption: no debug logging)
+	assumeFalse string
+	// plainDo: a function without recursion and without a position parameter in the `do` style (zwsort.go)
+	plainDo bool
+	// callOracles: `pkg.Func` -> `field field[:len(field)] .. =field`: a call statement `pkg.Func(s)` on a struct whose fields alias
+	// slices is an ORACLE of those fields (values) whose result is assigned to the field after `=` (sort.Sort: zwsort.go)
+	callOracles map[string]string
 }
 
 // groups in file order; a function may only call functions of its own or an earlier group
@@ -444,6 +457,8 @@ type tr struct {
 	loads   map[string]bool       // atomic loads seen (one per path and function)
 	// sixth round (iter.go)
 	six *round6
+	// seventh round (zw.go)
+	seven *round7
 }
 
 // nm: the Lean name of the variable an identifier denotes
@@ -797,6 +812,7 @@ func (t *tr) declareViewList(a *absParam, ty types.Type, decl string, kind strin
 			continue
 		}
 		cur := ty
+		var lastPkg *types.Package // the package of the last named type on the path (unexported fields of an anonymous struct: zwsort.go)
 		for _, comp := range path {
 			if p, ok := cur.(*types.Pointer); ok {
 				cur = p.Elem()
@@ -816,6 +832,9 @@ func (t *tr) declareViewList(a *absParam, ty types.Type, decl string, kind strin
 			var pkg *types.Package
 			if n, ok := cur.(*types.Named); ok {
 				pkg = n.Obj().Pkg()
+				lastPkg = pkg
+			} else {
+				pkg = lastPkg
 			}
 			obj, _, _ := types.LookupFieldOrMethod(cur, true, pkg, comp)
 			switch o := obj.(type) {
@@ -848,6 +867,11 @@ func (t *tr) expr(e ast.Expr) string {
 	tv := t.p.info.Types[e]
 	if tv.Value != nil && tv.Value.Kind() != constant.Bool {
 		return lit(tv.Value, t.typeOf(e))
+	}
+	if t.seven != nil {
+		if out, ok := t.expr7(e); ok {
+			return out
+		}
 	}
 	if t.spec.round6 {
 		if out, ok := t.expr6(e); ok {
@@ -1272,6 +1296,11 @@ func (t *tr) shiftAmount(e ast.Expr) string {
 
 // binary translates e; rt is the Go type of the result (given explicitly: `x op= y` builds a synthetic node)
 func (t *tr) binary(e *ast.BinaryExpr, rt ltype) string {
+	if t.seven != nil {
+		if out, ok := t.binary7(e); ok {
+			return out
+		}
+	}
 	if t.spec.round6 {
 		if out, ok := t.binary6(e); ok {
 			return out
@@ -2883,7 +2912,11 @@ func genFuncs(ld *loader) (map[string]string, []error) {
 			}
 			var def string
 			var t *tr
-			if spec.table {
+			if spec.round7 && spec.plainDo {
+				def, t = g.doFunction(p, spec, gi, fd)
+			} else if spec.round7 {
+				def, t = g.zwFunction(p, spec, gi, fd)
+			} else if spec.table {
 				def, t = g.closureTable(p, spec, gi, fd)
 			} else {
 				def, t = g.function(p, spec, gi, fd)
@@ -2929,6 +2962,9 @@ func genFuncs(ld *loader) (map[string]string, []error) {
 		}
 		if gr == "Search" {
 			b.WriteString(prelude5)
+		}
+		if gr == "Zw" {
+			b.WriteString(prelude7)
 		}
 		for _, s := range structDefs {
 			b.WriteString(s)
